@@ -107,6 +107,25 @@ func c14Fixed() [][]byte {
 			}
 		}
 	}
+	// lists that share their sub-lists, k levels deep (2^k paths, k+1 lists), into recursive list types
+	for _, typ := range []string{"\x05[tree", "\x06[ptree"} {
+		for _, k := range []int{3, 12, 22, 40} {
+			b := append([]byte{0x72}, typ...)
+			for i := 1; i < k; i++ {
+				b = append(b, 0x7a)
+			}
+			b = append(b, 0x78)
+			for i := k - 1; i >= 0; i-- {
+				b = append(b, 0x51)
+				b = append(b, encInt(int32(i+1))...)
+			}
+			out = append(out, b)
+		}
+	}
+	// every input of one octet (two-octet inputs: see the exhaustive phase of the test)
+	for i := 0; i < 256; i++ {
+		out = append(out, []byte{byte(i)})
+	}
 	// a container field of an object that refers back to the list (or map) the object sits in, which is still
 	// being read and whose elements do not fit the field: whatever binds such references late must still turn a
 	// mismatch into an error
@@ -641,6 +660,16 @@ var c14Scaled = []struct {
 		}
 		return b
 	}},
+	{"k/7 typed lists of seven references each to one list of 2k elements", func(k int) []byte {
+		b := append([]byte{0x57, 0x58}, encInt(int32(2*k))...)
+		for i := 0; i < 2*k; i++ {
+			b = append(b, 0x90)
+		}
+		for i := 0; i < k/7; i++ {
+			b = append(b, 0x77, 0x05, '[', '[', 'i', 'n', 't', 0x51, 0x91, 0x51, 0x91, 0x51, 0x91, 0x51, 0x91, 0x51, 0x91, 0x51, 0x91, 0x51, 0x91)
+		}
+		return append(b, 'Z')
+	}},
 	{"k nested lists each declaring 1024 elements", func(k int) []byte {
 		var b []byte
 		for i := 0; i < k; i++ {
@@ -725,6 +754,42 @@ func TestC14(t *testing.T) {
 			}
 		}
 		r.Label("growth: cost at scale 2k vs scale k")
+	}
+	// ---- every input of two octets through the one-shot and the streaming entry point (shard 0)
+	if shard, _ := shardInfo(); shard == 0 {
+		w2, err := startWorker()
+		if err != nil {
+			t.Skipf("cannot start worker: %v", err)
+		}
+		for hi := 0; hi < 256; hi++ {
+			jobs := make([]job, 0, 512)
+			for lo := 0; lo < 256; lo++ {
+				jobs = append(jobs, job{entry: 0, tm: 0, payload: []byte{byte(hi), byte(lo)}, origin: "two-octets"}, job{entry: 3, tm: 1, payload: []byte{byte(hi), byte(lo)}, origin: "two-octets"})
+			}
+			w2.send(jobs)
+			for _, j := range jobs {
+				v, ok := w2.recv(20 * time.Second)
+				if !ok {
+					w2.kill()
+					v2, ok2 := runAlone(j, 60*time.Second)
+					if !ok2 {
+						c14Fail(t, j, "the decoder does not return (or dies) on this input")
+					} else if msg := judge(j, v2); msg != "" {
+						c14Fail(t, j, msg)
+					}
+					if w2, err = startWorker(); err != nil {
+						t.Skipf("cannot restart worker: %v", err)
+					}
+					break
+				}
+				if msg := judge(j, v); msg != "" {
+					c14Fail(t, j, msg)
+				}
+			}
+			r.EvalN(int64(len(jobs)))
+		}
+		w2.kill()
+		r.Label("all two-octet inputs")
 	}
 	// ---- corpus of valid messages (Go encoder over the zoo) via rapid
 	g := &c14Gen{rng: seedFor("C14")}
